@@ -252,7 +252,7 @@ class RelDjango:
         m.PostInfo.objects.bulk_create([m.PostInfo(id=r["id"], tag=_col(r["tag"])) for r in db["PostInfo"]])
         m.AuthorInfo.objects.bulk_create([m.AuthorInfo(id=r["id"], tag=_col(r["tag"])) for r in db["AuthorInfo"]])
         m.Author.objects.bulk_create([m.Author(id=r["id"], name=_col(r["name"]), age=_col(r["age"]), rank=_col(r["rank"]),
-                                               org_id=_col(r["org"]), info_id=_col(r["info"])) for r in db["Author"]])
+                                               org_id=_col(r["org"]), info_id=_col(r["info"]), home_id=_col(r["home"])) for r in db["Author"]])
         m.Post.objects.bulk_create([m.Post(id=r["id"], title=_col(r["title"]), n=_col(r["n"]), author_id=_col(r["author"]),
                                            info_id=_col(r["info"])) for r in db["Post"]])
         m.Comment.objects.bulk_create([m.Comment(id=r["id"], text=_col(r["text"]), k=_col(r["k"]), post_id=_col(r["post"]))
@@ -283,7 +283,7 @@ class RelSa:
             id = sa.Column(sa.Integer, primary_key=True)
             name = sa.Column(sa.String)
             k = sa.Column(sa.Integer)
-            authors = relationship("Author", back_populates="org")
+            authors = relationship("Author", back_populates="org", foreign_keys="Author.org_id")
 
         class PostInfo(Base):
             __tablename__ = "post_info"
@@ -302,9 +302,11 @@ class RelSa:
             age = sa.Column(sa.Integer)
             rank = sa.Column(sa.Integer, nullable=False)
             org_id = sa.Column(sa.Integer, sa.ForeignKey("org.id"))
-            org = relationship("Org", back_populates="authors")
+            org = relationship("Org", back_populates="authors", foreign_keys=[org_id])
             info_id = sa.Column(sa.Integer, sa.ForeignKey("author_info.id"))
             info = relationship("AuthorInfo")
+            home_id = sa.Column(sa.Integer, sa.ForeignKey("org.id"), nullable=False)     # a NOT NULL key
+            home = relationship("Org", foreign_keys=[home_id])
             posts = relationship("Post", back_populates="author")
             edited = relationship("Post", secondary=post_editors, back_populates="authors")
 
@@ -351,7 +353,7 @@ class RelSa:
         s.execute(sa.insert(M["AuthorInfo"].__table__), [dict(id=r["id"], tag=_col(r["tag"])) for r in db["AuthorInfo"]])
         s.execute(sa.insert(M["Org"].__table__), [dict(id=r["id"], name=_col(r["name"]), k=_col(r["k"])) for r in db["Org"]])
         s.execute(sa.insert(M["Author"].__table__), [dict(id=r["id"], name=_col(r["name"]), age=_col(r["age"]), rank=_col(r["rank"]),
-                                                          org_id=_col(r["org"]), info_id=_col(r["info"])) for r in db["Author"]])
+                                                          org_id=_col(r["org"]), info_id=_col(r["info"]), home_id=_col(r["home"])) for r in db["Author"]])
         s.execute(sa.insert(M["Post"].__table__), [dict(id=r["id"], title=_col(r["title"]), n=_col(r["n"]), author_id=_col(r["author"]),
                                                         info_id=_col(r["info"])) for r in db["Post"]])
         s.execute(sa.insert(M["Comment"].__table__), [dict(id=r["id"], text=_col(r["text"]), k=_col(r["k"]), post_id=_col(r["post"]))
